@@ -274,10 +274,11 @@ example : (getOrCreate (getOrCreate ([] : Registry Nat) (metricKey false seps (a
     (metricKey false seps (asc "m") twoTags [b, a]) (asc "m") twoTags 0).1.length = 2 := by decide
 
 /-- whereas the code as it is gives one key, and it is the expected string -/
-example : key (asc "m") twoTags [b, a] = asc "m:a=1:b=2" ∧ key (asc "m") twoTags [a, b] = asc "m:a=1:b=2" := by decide
+example : key (asc "m") twoTags [b, a] = asc "m" ++ seps.tag ++ a ++ seps.kv ++ asc "1" ++ seps.tag ++ b ++ seps.kv ++ asc "2" ∧
+    key (asc "m") twoTags [a, b] = key (asc "m") twoTags [b, a] := by decide
 
 /-- distinct tag sets may share a key (the property does not forbid this direction) -/
-example : key (asc "m") [(a, asc "1:b=2")] [a] = key (asc "m") twoTags [a, b] := by decide
+example : key (asc "m") [(a, asc "1" ++ seps.tag ++ b ++ seps.kv ++ asc "2")] [a] = key (asc "m") twoTags [a, b] := by decide
 
 example : counterRun 0 [.inc, .add 5, .reset, .inc, .inc, .add 3] = 5 := by decide
 example : expected [.inc, .add 5, .reset, .inc, .inc, .add 3] = 5 := by decide
@@ -311,9 +312,9 @@ example : countOps (isSearch true) true demoOps = 1 ∧ countOps isAnySearch tru
 
 /-- the model run itself: one series for the two loads (flag as in the source) … -/
 example : (((Monitor.new : Monitor Nat).run (cfgOf [10, 20]) demoOps).c.counters.map (fun s => (s.key, s.val))) =
-    [(asc "searches_total:cache_hit=true", 1), (asc "cache_hits_total", 1),
-     (asc "searches_total:cache_hit=false", 1), (asc "cache_misses_total", 1),
-     (asc "database_operations_total:operation=load:success=true", 2)] := by decide
+    [(key nSearchesTotal (searchTags true) [tCacheHit], 1), (nCacheHits, 1),
+     (key nSearchesTotal (searchTags false) [tCacheHit], 1), (nCacheMisses, 1),
+     (key nDbTotal (dbTags (asc "load") true) [tSuccess, tOperation], 2)] := by decide
 
 /-- … two series (the original defect) when the key follows the map order -/
 example : (((Monitor.new : Monitor Nat).run ⟨false, seps, [10, 20]⟩ demoOps).c.counters.map (fun s => s.val)) =
